@@ -248,6 +248,15 @@ impl<'a> TypeFn for Run<'a> {
     }
 }
 
+/// a line  <<"TAG", "<json string>">>  printed by a spec
+pub fn parse_tagged(line: &str, tag: &str) -> Option<Value> {
+    let l = line.trim();
+    let rest = l.strip_prefix(&format!("<<\"{tag}\", "))?;
+    let inner = rest.strip_suffix(">>")?;
+    let s: String = serde_json::from_str(inner).ok()?;
+    serde_json::from_str(&s).ok()
+}
+
 /// Parse one line of TLC output: either `<<"BEH", "<json string>">>` or plain JSON.
 pub fn parse_line(line: &str) -> Option<Value> {
     let l = line.trim();
